@@ -3,6 +3,16 @@ from checklib import cN, cbool, clist, cpair, cstr_bytes
 from props import c05
 
 ID = "C12"
+# source constants of this property: Gen/Params.v is regenerated from the working tree, Proofs/ParamsTie.vo
+# (lemma per constant: it is the value the models use) is built with the property (lib/paramsgen.py)
+import paramsgen
+EXTRA_TARGETS = [paramsgen.TARGET]
+
+
+def pre_build(ctx):
+    paramsgen.regenerate(ctx)
+
+
 HARNESS = "c12"
 N_CASES = {"quick": 60, "thorough": 500}
 N_SEARCH = {"quick": 1, "thorough": 1}
